@@ -85,6 +85,15 @@ VARIANTS = [
     ("C05", R, "        return rvs(scale=1.0/rate, size=n)[0]", "        return rvs(scale=rate, size=n)[0]", "R-WRAP"),
     ("C05", ST, "    return _checkJump(x, new_x, x_lims, t, jump_times[min_index], jumps)", "    return _checkJump(x, new_x, x_lims, t, jump_times[min_index]/2, jumps)", "R-FR"),
     ("C05", R, "        return rvs(scale=1.0/rate, size=n)[0]", "        return rvs(scale=1/rate, size=n)[0]", None),
+    # python pitfalls: a mutable default argument is one object for all calls; lambdas look their free variables up when called
+    ("C05", ST, "def _newJumpTimes(rates, seed=None):\n    \"\"\"\n    Generate the new jump times assuming that the rates follow an exponential\n    distribution\n    \"\"\"\n\n    tau = [rexp(1, r, seed=seed) if r > 0 else np.inf for r in rates]\n    return np.array(tau)", "def _newJumpTimes(rates, seed=None, tau=[]):\n    tau.extend(rexp(1, r, seed=seed) if r > 0 else np.inf for r in rates)\n    return np.array(tau)", "R-FR"),
+    ("C05", ST, "def _newJumpTimes(rates, seed=None):\n    \"\"\"\n    Generate the new jump times assuming that the rates follow an exponential\n    distribution\n    \"\"\"\n\n    tau = [rexp(1, r, seed=seed) if r > 0 else np.inf for r in rates]\n    return np.array(tau)", "def _newJumpTimes(rates, seed=None, tau=None):\n    tau = [] if tau is None else tau\n    tau.extend(rexp(1, r, seed=seed) if r > 0 else np.inf for r in rates)\n    return np.array(tau)", None),
+    ("C05", ST, "def _newJumpTimes(rates, seed=None):\n    \"\"\"\n    Generate the new jump times assuming that the rates follow an exponential\n    distribution\n    \"\"\"\n\n    tau = [rexp(1, r, seed=seed) if r > 0 else np.inf for r in rates]\n    return np.array(tau)", "def _newJumpTimes(rates, seed=None):\n    draws = [lambda: rexp(1, r, seed=seed) for r in rates]\n    tau = [d() if r > 0 else np.inf for d, r in zip(draws, rates)]\n    return np.array(tau)", "R-FR"),
+    ("C05", ST, "def _newJumpTimes(rates, seed=None):\n    \"\"\"\n    Generate the new jump times assuming that the rates follow an exponential\n    distribution\n    \"\"\"\n\n    tau = [rexp(1, r, seed=seed) if r > 0 else np.inf for r in rates]\n    return np.array(tau)", "def _newJumpTimes(rates, seed=None):\n    draws = [lambda r=r: rexp(1, r, seed=seed) for r in rates]\n    tau = [d() if r > 0 else np.inf for d, r in zip(draws, rates)]\n    return np.array(tau)", None),
+    # an iterator can be walked once
+    ("C05", ST, "def _newJumpTimes(rates, seed=None):\n    \"\"\"\n    Generate the new jump times assuming that the rates follow an exponential\n    distribution\n    \"\"\"\n\n    tau = [rexp(1, r, seed=seed) if r > 0 else np.inf for r in rates]\n    return np.array(tau)", "def _newJumpTimes(rates, seed=None):\n    tau = (rexp(1, r, seed=seed) if r > 0 else np.inf for r in rates)\n    n_clocks = sum(1 for _ in tau)\n    return np.array(list(tau))", "R-FR"),
+    ("C05", ST, "def _newJumpTimes(rates, seed=None):\n    \"\"\"\n    Generate the new jump times assuming that the rates follow an exponential\n    distribution\n    \"\"\"\n\n    tau = [rexp(1, r, seed=seed) if r > 0 else np.inf for r in rates]\n    return np.array(tau)", "def _newJumpTimes(rates, seed=None):\n    tau = [rexp(1, r, seed=seed) if r > 0 else np.inf for r in rates]\n    n_clocks = sum(1 for _ in tau)\n    return np.array(list(tau))", None),
+    ("C05", ST, "def _newJumpTimes(rates, seed=None):\n    \"\"\"\n    Generate the new jump times assuming that the rates follow an exponential\n    distribution\n    \"\"\"\n\n    tau = [rexp(1, r, seed=seed) if r > 0 else np.inf for r in rates]\n    return np.array(tau)", "def _newJumpTimes(rates, seed=None):\n    pairs = zip(rates, [seed] * len(rates))\n    positive = [r for r, _s in pairs if r > 0]\n    return np.array([rexp(1, r, seed=s) if r > 0 else np.inf for r, s in pairs])", "R-FR"),
     # ------------------------------------------------------------------ C06
     ("C06", L, "                                              self._observeT,\n                                              full_output=False,", "                                              self._t,\n                                              full_output=False,", "R-ROWMATCH"),
     ("C06", L, "                        thetaDict[self._targetParam[i]] = theta[i]", "                        thetaDict[self._targetParam[i]] = theta[l1-1-i]", "R-KV"),
